@@ -178,13 +178,33 @@ func worldGroups(w *World) {
 
 	names := []string{"m0", "m1", "m2", "m3", "m4"}
 	nops := w.KnobPick("nops", 6, 12, 24)
+	focusRace := w.KnobBool("focus_race", 50)
 	for i := 0; i < nops; i++ {
 		c := clients[r.Intn(len(clients))]
+		forced := -1
+		if focusRace {
+			// keep the group at exactly one member and race its leave against a join as often as possible
+			switch {
+			case len(members) == 0:
+				forced = 0
+			case len(members) == 1:
+				forced = 19
+			default:
+				forced = 7
+				for _, o := range members {
+					c = o
+				}
+			}
+		}
 		if c.IsClosed() {
 			viol("serve", "session-closed-unexpectedly", "session %s closed by the server; history: %v", c.Name, history)
 			return
 		}
-		switch k := r.Intn(20); {
+		k := r.Intn(20)
+		if forced >= 0 {
+			k = forced
+		}
+		switch {
 		case k < 7: // join
 			var free []string
 			for _, n := range names {
@@ -197,7 +217,12 @@ func worldGroups(w *World) {
 			}
 			name := free[r.Intn(len(free))]
 			key, variant := gkey, 0
-			switch r.Intn(6) {
+			switch r.Intn(6) + func() int {
+				if focusRace {
+					return 10
+				}
+				return 0
+			}() {
 			case 0:
 				key = "key-wrong"
 			case 1:
